@@ -163,6 +163,10 @@ func Run(ctx *vrun.Ctx, prop string) error {
 	if os.Getenv("VERIF_SKIP_MODELS") != "" { // development aid: only the auxiliary specs of the property
 		return <-indDone
 	}
+	secondCrashes, secondCrashesPruned = 1, 4
+	if ctx.Thorough {
+		secondCrashes, secondCrashesPruned = 4, 0 // pruned workloads: every second-crash point
+	}
 	if !ctx.Thorough {
 		Prefetch(ctx, models, 3, 25*time.Minute)
 	}
